@@ -45,6 +45,9 @@ const (
 	// flexible produce versions: per-topic / per-partition tagged-field bytes are not
 	// accounted, so a packed request can exceed BrokerMaxWriteBytes.
 	knownFlexWriteLimit = "flexible-produce-request-exceeds-broker-max-write-bytes-by-unaccounted-tag-bytes"
+	// the first request to a broker (produce version not yet known to the sink) sizes a new
+	// topic by its name; if v13 is then negotiated the 16-byte topic id is written instead.
+	knownFirstReqV13 = "first-produce-request-v13-topic-id-undercounted-while-version-unknown"
 )
 
 var (
@@ -784,7 +787,7 @@ func check(p *plan, o *outcome) (errs []string) {
 			bad("%s: version above the broker's advertised maximum %d", where, p.PV)
 		}
 		overW := 4+int64(f.Size) > int64(p.W)
-		if overW && !(knownActive[knownFlexWriteLimit] && f.Version >= 9) {
+		if overW && !(knownActive[knownFlexWriteLimit] && f.Version >= 9) && !(knownActive[knownFirstReqV13] && f.Version >= 13) {
 			bad("%s: request of %d bytes exceeds BrokerMaxWriteBytes %d", where, 4+int64(f.Size), p.W)
 		}
 		if f.ClientID == nil || *f.ClientID != wantCID {
@@ -875,7 +878,14 @@ func check(p *plan, o *outcome) (errs []string) {
 				all = append(all, d)
 			}
 		}
-		if overW && knownActive[knownFlexWriteLimit] && f.Version >= 9 {
+		if overW && knownActive[knownFirstReqV13] && f.Version >= 13 {
+			// known finding's class (v13 topic ids): the excess must be explained by 18 bytes
+			// per topic element plus one per partition element.
+			ev.Excluded(knownFirstReqV13)
+			if over := 4 + int64(f.Size) - int64(p.W); over > int64(18*len(req.Topics)+nparts) {
+				bad("%s: request of %d bytes exceeds BrokerMaxWriteBytes %d by %d bytes, more than 18 per topic and 1 per partition element (%d topics, %d partitions)", where, 4+int64(f.Size), p.W, over, len(req.Topics), nparts)
+			}
+		} else if overW && knownActive[knownFlexWriteLimit] && f.Version >= 9 {
 			// known finding's class (flexible version, tagged-field bytes of the topic and
 			// partition elements unaccounted): the strict bound is not asserted; the excess
 			// must still be explained by one byte per topic and partition element.
@@ -1193,6 +1203,31 @@ func flexFamily() []*plan {
 	return out
 }
 
+// firstReqFamily: produce v13, six topics with one-character names and one partition each,
+// one record per topic produced at the same instant under a linger, no earlier request: the
+// sink builds its FIRST request without knowing the produce version. Value lengths sweep the
+// request size across BrokerMaxWriteBytes.
+func firstReqFamily() []*plan {
+	var out []*plan
+	for l := 60; l <= 75; l++ {
+		for k := 0; k < 8; k++ {
+			p := &plan{PV: 13, MetaMax: 13, Mode: modePlain, Acks: -1, W: 1024, B: 1024, Linger: 20 * time.Millisecond}
+			for i := 0; i < 6; i++ {
+				p.Topics = append(p.Topics, topicPlan{Name: string(rune('a' + i)), Parts: 1})
+			}
+			for i := 0; i < 6; i++ {
+				vl := l
+				if i == 5 {
+					vl += k
+				}
+				p.Recs = append(p.Recs, recPlan{T: i, P: 0, ValLen: vl, ValMode: 1, TsMs: 1700000000001})
+			}
+			out = append(out, p)
+		}
+	}
+	return out
+}
+
 var decideOnce sync.Once
 
 func firstWith(errs []string, needle string) string {
@@ -1216,6 +1251,21 @@ func decideKnown(tt *testing.T) {
 				ev.KnownFinding("C18", knownMsgSetBatchMax+": witness (produce v1, ProducerBatchMaxBytes 513, record value 506 bytes) still fails: "+hit)
 				ev.Class("known_finding_witness_still_fails")
 			} else {
+				ev.Class("known_finding_listed_but_witness_passes_check_is_strict")
+			}
+		}
+		if knownListed[knownFirstReqV13] {
+			found := false
+			for _, w := range firstReqFamily() {
+				if hit := firstWith(check(w, runCase(tt, w)), "exceeds BrokerMaxWriteBytes"); hit != "" {
+					knownActive[knownFirstReqV13] = true
+					ev.KnownFinding("C18", fmt.Sprintf("%s: witness (first request, produce v13, topics a..f x 1 partition, value lengths %d x5 + %d, BrokerMaxWriteBytes 1024) still fails: %s", knownFirstReqV13, w.Recs[0].ValLen, w.Recs[5].ValLen, hit))
+					ev.Class("known_finding_witness_still_fails")
+					found = true
+					break
+				}
+			}
+			if !found {
 				ev.Class("known_finding_listed_but_witness_passes_check_is_strict")
 			}
 		}
@@ -1247,6 +1297,9 @@ func TestKnownFindingWitnesses(t *testing.T) {
 	}
 	if !knownActive[knownFlexWriteLimit] {
 		ws = append(ws, flexFamily()...)
+	}
+	if !knownActive[knownFirstReqV13] {
+		ws = append(ws, firstReqFamily()...)
 	}
 	for _, w := range ws {
 		o := runCase(t, w)
